@@ -54,15 +54,47 @@ Merc0Decl(c) == Acts([c EXCEPT !.ign = 2])
 Merc1Star(c) == {<<i, 0>> : i \in 1..(c.n - 1)}
 Merc1Pairs(c) == Merc0Loop(c)
 
+(* ---- TRACE (heliocentric coordinates; the star-body terms belong to the Kepler step).  K is the set of planet pairs
+        <<j, i>>, 1 <= j < i, flagged as close encounters (current_Ks[j*N+i]); E the encounter list (body indices, 0 included).
+        INTERACTION mode: the three loop nests of the serial variant, each skipping flagged pairs.
+        KEPLER mode: star term for the members of E, flagged pairs between members of E (loops over list positions). *)
+PlanetPairs(c) == {p \in Idx(c) \X Idx(c) : 1 <= p[1] /\ p[1] < p[2]}
+InK(K, i, j) == (IF i < j THEN <<i, j>> ELSE <<j, i>>) \in K
+TraceIntLoop(c, K) ==
+  LET act == {p \in Idx(c) \X Idx(c) : p[1] # p[2] /\ p[1] >= 1 /\ p[2] >= 1 /\ p[1] < Na(c) /\ p[2] < Na(c) /\ ~InK(K, p[1], p[2])}
+      tp == {p \in Idx(c) \X Idx(c) : p[1] >= Max(Na(c), 2) /\ p[2] >= 1 /\ p[2] < Na(c) /\ ~InK(K, p[1], p[2])}
+      back == IF c.type = 1 THEN {<<p[2], p[1]>> : p \in tp} ELSE {} IN
+  act \cup tp \cup back
+EMin(c, K) == {0} \cup {p[1] : p \in K} \cup {p[2] : p \in K}
+TraceKepStar(c, E) == {<<i, 0>> : i \in E \ {0}}
+TraceKepPairs(c, K, E) ==
+  LET act == {p \in E \X E : p[1] # p[2] /\ p[1] >= 1 /\ p[2] >= 1 /\ p[1] < Na(c) /\ p[2] < Na(c) /\ InK(K, p[1], p[2])}
+      tp == {p \in E \X E : p[1] >= Max(Na(c), 1) /\ p[1] >= 1 /\ p[2] >= 1 /\ p[2] < Na(c) /\ InK(K, p[1], p[2])}
+      back == IF c.type = 1 THEN {<<p[2], p[1]>> : p \in tp} ELSE {} IN
+  act \cup tp \cup back
+(* the probe variants of K printed for the harness *)
+KVariant(c, v) == CASE v = 1 -> {} [] v = 2 -> PlanetPairs(c)
+                    [] v = 3 -> {p \in PlanetPairs(c) : (p[1] + p[2]) % 3 = 0}
+                    [] v = 4 -> {p \in PlanetPairs(c) : (p[1] * p[2]) % 2 = 1 \/ p[2] = c.n - 1}
+                    [] v = 5 -> {p \in PlanetPairs(c) : p[1] = Na(c) - 1 /\ p[2] >= Na(c)}      \* last active body with the test particles
+                    [] v = 6 -> {p \in PlanetPairs(c) : p[2] - p[1] = 2 /\ p[1] >= 2}            \* encounter list skips indices
+
 (* theorems *)
-BasicIsDeclarative == \A c \in Cfgs : Valid(c) => BasicLoop(c) = Acts(c)
-CompIsDeclarative == \A c \in Cfgs : Valid(c) => CompLoop(c) = Acts(c)
-Merc0IsDeclarative == \A c \in Cfgs : Valid(c) /\ c.ign = 0 => Merc0Loop(c) = Merc0Decl(c)
+(* TRACE: whatever pairs are flagged, as long as the encounter list holds their end points, the interaction part and the
+   Kepler part sum every planet pair of the declarative set exactly once; with nothing flagged TRACE is MERCURIUS mode 0 *)
+TracePartition(c) == c.ign = 0 => \A K \in SUBSET PlanetPairs(c) :
+    \A E \in {EMin(c, K), Idx(c) \cup {0}} :
+       /\ TraceIntLoop(c, K) \cup TraceKepPairs(c, K, E) = Merc0Decl(c)
+       /\ TraceIntLoop(c, K) \cap TraceKepPairs(c, K, E) = {}
+TraceNoFlagsIsMerc0(c) == c.ign = 0 => TraceIntLoop(c, {}) = Merc0Loop(c)
+BasicIsDeclarative(c) == BasicLoop(c) = Acts(c)
+CompIsDeclarative(c) == CompLoop(c) = Acts(c)
+Merc0IsDeclarative(c) == c.ign = 0 => Merc0Loop(c) = Merc0Decl(c)
 (* all active: the interaction set is symmetric (Newton's third law: the mass-weighted accelerations cancel) *)
-SymmetricWhenAllActive == \A c \in Cfgs : Valid(c) /\ Na(c) = c.n => \A p \in Acts(c) : <<p[2], p[1]>> \in Acts(c)
+SymmetricWhenAllActive(c) == Na(c) = c.n => \A p \in Acts(c) : <<p[2], p[1]>> \in Acts(c)
 (* hybrid splitting: the Kepler part (star <-> body), mode-0 pairs (weight L) and mode-1 pairs (weight 1-L) cover the
    full declarative set exactly once in weight *)
-PartitionComplete == \A c \in Cfgs : Valid(c) /\ c.ign = 0 /\ c.n >= 1 =>
+PartitionComplete(c) == c.ign = 0 /\ c.n >= 1 =>
     Merc0Loop(c) \cup {p \in Acts(c) : p[1] = 0 \/ p[2] = 0} = Acts(c)
 
 VARIABLES c
@@ -71,5 +103,12 @@ Next == UNCHANGED c
 Spec == Init /\ [][Next]_c
 SetToSeq(S) == LET RECURSIVE F(_) F(T) == IF T = {} THEN <<>> ELSE LET x == CHOOSE x \in T : TRUE IN <<x>> \o F(T \ {x}) IN F(S)
 Emit == PrintT(<<"A", ToJson([cfg |-> c, acts |-> SetToSeq(Acts(c)), merc0 |-> SetToSeq(Merc0Decl(c))])>>)
-Theorems == BasicIsDeclarative /\ CompIsDeclarative /\ Merc0IsDeclarative /\ SymmetricWhenAllActive /\ PartitionComplete
+     /\ (c.ign = 0 /\ c.n >= 3 /\ c.n <= 5 /\ Na(c) >= 1 =>
+           \A v \in 1..6 : LET K == KVariant(c, v) IN
+              PrintT(<<"T", ToJson([cfg |-> c, v |-> v, K |-> SetToSeq(K), E |-> SetToSeq(EMin(c, K)),
+                                    int |-> SetToSeq(TraceIntLoop(c, K)), kep |-> SetToSeq(TraceKepPairs(c, K, EMin(c, K))),
+                                    kepfull |-> SetToSeq(TraceKepPairs(c, K, Idx(c)))])>>))
+(* every valid configuration is an initial state, so the theorems are checked configuration by configuration *)
+Theorems == BasicIsDeclarative(c) /\ CompIsDeclarative(c) /\ Merc0IsDeclarative(c) /\ SymmetricWhenAllActive(c) /\ PartitionComplete(c)
+            /\ TracePartition(c) /\ TraceNoFlagsIsMerc0(c)
 =============================================================================
